@@ -243,7 +243,14 @@ def body(ctx):
         if rk is None or rk[0] != "Ok":
             continue
         ext = [e for e in lf.events if e[0] == "call" and last_seg(e[3]) == "extend_from_slice" and self_field(e[4][2][0], "body_vec")]
-        more = conn.atom_truth(lf, lambda t: t[0] == "bin" and t[1] == "Gt" and self_field(t[2], "body_bytes_to_be_read"))
+        def _needs_more(t):
+            if not (t[0] == "bin" and t[1] == "Gt"):
+                return False
+            x = look(t[2])
+            while x[0] == "cast":
+                x = look(x[1])      # `remaining as usize > available` or `remaining > available as u32`
+            return self_field(x, "body_bytes_to_be_read")
+        more = conn.atom_truth(lf, _needs_more)
         if look(rk[1]) == ("const", False):
             seen.add("partial")
             ok = more is True and len(ext) == 1
@@ -254,6 +261,15 @@ def body(ctx):
             okc = len(cur) == 1 and cur[0][4] == ("const", 0)
             rem = conn.assigns_to(lf, "body_bytes_to_be_read")
             okr = len(rem) == 1 and look(rem[0][4])[0] in ("bin", "field")
+            if more is True and not ext and not rem:
+                # nothing to append: the path established that buffer[start..end] is empty
+                def _empty_window(t):
+                    if not is_call(t, "is_empty") or not t[2]:
+                        return False
+                    r_ = buf_range(t[2][0])
+                    return r_ is not None and is_start(r_[0]) and look(r_[1]) == ("arg", 3)
+                if conn.atom_truth(lf, _empty_window) is True:
+                    ok, okr = True, True
             ctx.ob("R01.5", "partial|append-all-and-restart", ok and okc, "partial body: buffer[start..end] is appended and the cursor restarts at 0 (append %s, cursor %s)" % (ok, okc), fn.loc(lf.bb))
             ctx.ob("R01.5", "partial|remaining-decreased", okr, "the remaining-bytes counter is decreased by the appended amount", fn.loc(lf.bb))
         elif look(rk[1]) == ("const", True):
